@@ -16,6 +16,23 @@ type exprOpts struct {
 	sums     bool // render accumulation phis as Σ(init; term) and loop indices as *
 	depth    int
 	swap     [2]int // when swap[0] != swap[1]: render parameter swap[0] as swap[1] and vice versa (symmetry checks)
+	// inline: calls to module helpers accepted by this predicate are rendered
+	// as the helper's returned expression with the arguments substituted
+	// (loop-free, non-recursive helpers only), so extracting or inlining a
+	// helper does not change the rendering.
+	inline func(*ssa.Function) bool
+	// abstract: consulted first for every value; lets a rule replace a
+	// sub-expression it has decided semantically (e.g. "⌈n/2⌉") by a name.
+	abstract func(ssa.Value) (string, bool)
+	// cat: append chains are flattened to cat(part, part, …); empty bases
+	// (nil, make(T,0,…), x[:0]) vanish.
+	cat bool
+	// fills: a make([]T, n) is rendered together with the element stores and
+	// copy() calls that fill it, so a slice built by a loop is one term.
+	fills bool
+	// loops: with inline set, helpers containing loops are inlined as well
+	// (rendering is by value and does not depend on control flow).
+	loops bool
 }
 
 // exprStr renders a pure SSA expression as a canonical string that is
@@ -31,8 +48,239 @@ func exprStr(v ssa.Value, o exprOpts) string {
 }
 
 type renderer struct {
-	o       exprOpts
-	onStack map[ssa.Value]bool
+	o        exprOpts
+	onStack  map[ssa.Value]bool
+	subst    map[ssa.Value]string
+	inlining map[*ssa.Function]bool
+}
+
+// helperInlinable is the default inline predicate: unexported (or closure)
+// functions of the module, without loops, of moderate size.
+func helperInlinable(f *ssa.Function) bool {
+	if f == nil || len(f.Blocks) == 0 || f.Pkg == nil && f.Parent() == nil {
+		return false
+	}
+	pk := f.Pkg
+	if pk == nil && f.Parent() != nil {
+		pk = f.Parent().Pkg
+	}
+	if pk == nil || !strings.HasPrefix(pk.Pkg.Path(), modPath) {
+		return false
+	}
+	if f.Parent() == nil && token.IsExported(f.Name()) {
+		return false
+	}
+	n := 0
+	for _, b := range f.Blocks {
+		n += len(b.Instrs)
+		for _, s := range b.Succs {
+			if s.Dominates(b) {
+				return false // loop
+			}
+		}
+	}
+	return n <= 120
+}
+
+// helperInlinableLoops: as helperInlinable, loops allowed.
+func helperInlinableLoops(f *ssa.Function) bool {
+	if f == nil || len(f.Blocks) == 0 {
+		return false
+	}
+	pk := f.Pkg
+	if pk == nil && f.Parent() != nil {
+		pk = f.Parent().Pkg
+	}
+	if pk == nil || !strings.HasPrefix(pk.Pkg.Path(), modPath) {
+		return false
+	}
+	if f.Parent() == nil && token.IsExported(f.Name()) {
+		return false
+	}
+	n := 0
+	for _, b := range f.Blocks {
+		n += len(b.Instrs)
+	}
+	return n <= 200
+}
+
+// fillsOf lists the stores and copies that fill a freshly made slice.
+func (r *renderer) fillsOf(m ssa.Value, d int) []string {
+	set := map[string]bool{}
+	var visit func(v ssa.Value, off string, depth int)
+	visit = func(v ssa.Value, off string, depth int) {
+		if depth > 4 || v.Referrers() == nil {
+			return
+		}
+		for _, ref := range *v.Referrers() {
+			switch x := ref.(type) {
+			case *ssa.IndexAddr:
+				if x.X != v {
+					continue
+				}
+				for _, r2 := range *x.Referrers() {
+					if st, ok := r2.(*ssa.Store); ok && st.Addr == ssa.Value(x) {
+						set[off+"["+r.idx(x.Index, d+1)+"] ← "+r.render(st.Val, d+1)] = true
+					}
+					if sl, ok := r2.(*ssa.Slice); ok {
+						// copy(ret[i][:], src): element filled by copy
+						for _, r3 := range *sl.Referrers() {
+							if ci, ok := r3.(ssa.CallInstruction); ok {
+								if b, isB := ci.Common().Value.(*ssa.Builtin); isB && b.Name() == "copy" && ci.Common().Args[0] == ssa.Value(sl) {
+									set[off+"["+r.idx(x.Index, d+1)+"] ⇐ "+r.render(ci.Common().Args[1], d+1)] = true
+								}
+							}
+						}
+					}
+				}
+			case *ssa.Slice:
+				if x.X != v {
+					continue
+				}
+				lo := ""
+				if x.Low != nil {
+					lo = r.render(x.Low, d+1)
+				}
+				hi := ""
+				if x.High != nil {
+					hi = r.render(x.High, d+1)
+				}
+				for _, r2 := range *x.Referrers() {
+					if ci, ok := r2.(ssa.CallInstruction); ok {
+						if b, isB := ci.Common().Value.(*ssa.Builtin); isB && b.Name() == "copy" && ci.Common().Args[0] == ssa.Value(x) {
+							set[off+"["+lo+":"+hi+"] ⇐ "+r.render(ci.Common().Args[1], d+1)] = true
+						}
+					}
+				}
+			case *ssa.ChangeType:
+				visit(x, off, depth+1)
+			case *ssa.Phi:
+				// carried round a loop unchanged
+			}
+		}
+	}
+	visit(m, "", 0)
+	var out []string
+	for s := range set {
+		out = append(out, s)
+	}
+	sort.Strings(out)
+	return out
+}
+
+// renderInlined renders result #idx of a call to an inlinable helper.
+func (r *renderer) renderInlined(call *ssa.Call, f *ssa.Function, idx int, d int) (string, bool) {
+	if r.inlining[f] || len(call.Call.Args) != len(f.Params) {
+		return "", false
+	}
+	saved := r.subst
+	ns := map[ssa.Value]string{}
+	for k, v := range saved {
+		ns[k] = v
+	}
+	for i, p := range f.Params {
+		ns[p] = r.render(call.Call.Args[i], d+1)
+	}
+	if mc, ok := call.Call.Value.(*ssa.MakeClosure); ok {
+		for i, fv := range f.FreeVars {
+			if i < len(mc.Bindings) {
+				ns[fv] = r.render(mc.Bindings[i], d+1)
+			}
+		}
+	}
+	r.subst = ns
+	if r.inlining == nil {
+		r.inlining = map[*ssa.Function]bool{}
+	}
+	r.inlining[f] = true
+	seen := map[string]bool{}
+	var alts []string
+	okAll := true
+	for _, b := range f.Blocks {
+		ret, isR := b.Instrs[len(b.Instrs)-1].(*ssa.Return)
+		if !isR {
+			continue
+		}
+		res := retResults(ret)
+		if idx >= len(res) {
+			okAll = false
+			break
+		}
+		s := r.render(res[idx], d+1)
+		if !seen[s] {
+			seen[s] = true
+			alts = append(alts, s)
+		}
+	}
+	delete(r.inlining, f)
+	r.subst = saved
+	if !okAll || len(alts) == 0 {
+		return "", false
+	}
+	sort.Strings(alts)
+	if len(alts) == 1 {
+		return alts[0], true
+	}
+	return "phi(" + strings.Join(alts, " | ") + ")", true
+}
+
+// catParts flattens an append chain into its parts.
+func (r *renderer) catParts(v ssa.Value, d int) []string {
+	if d > r.o.depth {
+		return []string{"…"}
+	}
+	if _, ok := r.subst[v]; ok {
+		return []string{r.render(v, d)}
+	}
+	switch x := v.(type) {
+	case *ssa.ChangeType:
+		return r.catParts(x.X, d)
+	case *ssa.Convert:
+		if _, isSlice := x.Type().Underlying().(*types.Slice); isSlice {
+			if _, fromSlice := x.X.Type().Underlying().(*types.Slice); fromSlice {
+				return r.catParts(x.X, d)
+			}
+		}
+	case *ssa.Const:
+		if x.Value == nil {
+			return nil
+		}
+	case *ssa.MakeSlice:
+		if k, ok := constInt(x.Len); ok && k == 0 {
+			return nil
+		}
+	case *ssa.Slice:
+		if x.High != nil {
+			if k, ok := constInt(x.High); ok && k == 0 {
+				return nil
+			}
+		}
+	case *ssa.Call:
+		if b, ok := x.Call.Value.(*ssa.Builtin); ok && b.Name() == "append" && len(x.Call.Args) == 2 {
+			return append(r.catParts(x.Call.Args[0], d+1), r.render(x.Call.Args[1], d+1))
+		}
+	case *ssa.Phi:
+		if r.onStack[v] {
+			return nil // the buffer carried round a loop and reset: its old content is dropped by [:0]
+		}
+		r.onStack[v] = true
+		defer delete(r.onStack, v)
+		var first []string
+		same := true
+		for i, e := range x.Edges {
+			p := r.catParts(e, d+1)
+			if i == 0 {
+				first = p
+			} else if strings.Join(p, "\x00") != strings.Join(first, "\x00") {
+				same = false
+			}
+		}
+		if same {
+			return first
+		}
+		delete(r.onStack, v)
+	}
+	return []string{r.render(v, d)}
 }
 
 func relName(s string) string { return strings.ReplaceAll(s, modPath+"/", "") }
@@ -72,6 +320,14 @@ func intTypeName(t types.Type) string {
 func (r *renderer) render(v ssa.Value, d int) string {
 	if v == nil {
 		return "nil"
+	}
+	if s, ok := r.subst[v]; ok {
+		return s
+	}
+	if r.o.abstract != nil {
+		if s, ok := r.o.abstract(v); ok {
+			return s
+		}
 	}
 	if d > r.o.depth {
 		return "…"
@@ -179,7 +435,11 @@ func (r *renderer) render(v ssa.Value, d int) string {
 	case *ssa.Lookup:
 		return r.render(x.X, d+1) + "[" + r.render(x.Index, d+1) + "]"
 	case *ssa.Slice:
-		s := r.render(x.X, d+1) + "["
+		s := r.render(x.X, d+1)
+		if r.o.cat || r.o.fills {
+			s = strings.TrimPrefix(s, "&") // a[:] of an addressable array element: same view as the value's
+		}
+		s += "["
 		if x.Low != nil {
 			s += r.render(x.Low, d+1)
 		}
@@ -189,8 +449,27 @@ func (r *renderer) render(v ssa.Value, d int) string {
 		}
 		return s + "]"
 	case *ssa.Extract:
+		if call, ok := x.Tuple.(*ssa.Call); ok && r.o.inline != nil {
+			if f := call.Call.StaticCallee(); f != nil && r.o.inline(f) {
+				if s, ok := r.renderInlined(call, f, x.Index, d); ok {
+					return s
+				}
+			}
+		}
 		return r.render(x.Tuple, d+1) + "#" + fmt.Sprint(x.Index)
 	case *ssa.Call:
+		if r.o.inline != nil && !x.Call.IsInvoke() {
+			if f := x.Call.StaticCallee(); f != nil && f.Signature.Results().Len() == 1 && r.o.inline(f) {
+				if s, ok := r.renderInlined(x, f, 0, d); ok {
+					return s
+				}
+			}
+		}
+		if r.o.cat {
+			if b, ok := x.Call.Value.(*ssa.Builtin); ok && b.Name() == "append" && len(x.Call.Args) == 2 {
+				return "cat(" + strings.Join(r.catParts(x, d), ", ") + ")"
+			}
+		}
 		var args []string
 		for _, a := range x.Call.Args {
 			args = append(args, r.render(a, d+1))
@@ -251,7 +530,13 @@ func (r *renderer) render(v ssa.Value, d int) string {
 	case *ssa.TypeAssert:
 		return r.render(x.X, d+1) + ".(" + relName(types.TypeString(x.AssertedType, nil)) + ")"
 	case *ssa.MakeSlice:
-		return "make([]" + relName(types.TypeString(x.Type().Underlying().(*types.Slice).Elem(), nil)) + ", " + r.render(x.Len, d+1) + ")"
+		ms := "make([]" + relName(types.TypeString(x.Type().Underlying().(*types.Slice).Elem(), nil)) + ", " + r.render(x.Len, d+1) + ")"
+		if r.o.fills {
+			if fl := r.fillsOf(x, d); len(fl) > 0 {
+				ms += "{" + strings.Join(fl, "; ") + "}"
+			}
+		}
+		return ms
 	case *ssa.MakeMap:
 		return "makemap"
 	case *ssa.MakeClosure:
